@@ -203,4 +203,73 @@ func encryptionPost(r *Run) {
 	}
 	r.stats.Checks += 3
 	r.probe("enc_reopen_verified")
+	// (4) a third session: let the rotation interval pass, write under the (new) latest
+	// data key, close, open again: data under every earlier data key must still read back
+	rot := 10 * 24 * time.Hour
+	if cfg.EncRotS > 0 {
+		rot = time.Duration(cfg.EncRotS) * time.Second
+	}
+	if cfg.EncRotMs > 0 {
+		rot = time.Duration(cfg.EncRotMs) * time.Millisecond
+	}
+	if rot > time.Hour {
+		return
+	}
+	probes := map[string][]byte{}
+	for round := 0; round < 3; round++ {
+		time.Sleep(rot + time.Millisecond)
+		for i := 0; i < 12; i++ {
+			k := fmt.Sprintf("zz-enc-probe-%d-%02d", round, i)
+			v := bytes.Repeat([]byte(fmt.Sprintf("<probe.%d.%d>", round, i)), 12)
+			if err := db2.Update(func(txn *badger.Txn) error { return txn.Set([]byte(k), v) }); err != nil {
+				r.violate([]string{"C23"}, "write-after-reopen", "commit in the session after the re-open failed: %v", err)
+				return
+			}
+			probes[k] = v
+		}
+	}
+	if err := db2.Close(); err != nil {
+		db2 = nil
+		r.violate([]string{"C23", "C07"}, "close-error", "Close of the second session failed: %v", err)
+		return
+	}
+	db2 = nil
+	var err3 error
+	func() {
+		defer func() {
+			if p := recover(); p != nil {
+				err3 = fmt.Errorf("panic: %v", p)
+			}
+		}()
+		db2, err3 = badger.Open(BadgerOptions(&cfg2, r.dir, r.vdir))
+	}()
+	if err3 != nil {
+		r.violate([]string{"C23", "C07"}, "third-open-failed", "Open of the third session (after writes under a rotated data key) failed: %v", firstLine(err3.Error()))
+		return
+	}
+	st3, err := dumpDB(db2, keys)
+	if err != nil {
+		r.violate([]string{"C23"}, "read-in-third-session", "reading in the third session failed: %v", err)
+		return
+	}
+	if d := sameVisibleStates(st1, st3); d != "" {
+		r.violate([]string{"C23", "C07"}, "state-changed-across-reopen", "the third session shows a different visible state: %s", d)
+		return
+	}
+	for k, v := range probes {
+		var got []byte
+		err := db2.View(func(txn *badger.Txn) error {
+			it, err := txn.Get([]byte(k))
+			if err != nil {
+				return err
+			}
+			got, err = it.ValueCopy(nil)
+			return err
+		})
+		if err != nil || !bytes.Equal(got, v) {
+			r.violate([]string{"C23"}, "probe-lost", "key %q written in the second session reads %s / %v in the third", k, short(got), err)
+			return
+		}
+	}
+	r.probe("enc_third_session_verified")
 }
